@@ -95,6 +95,18 @@ CLAIMED = {
         text="Theorems for every well-formed extra dimension (any of the 30 typed element types, scaled or not, or an opaque array of 4..255 bytes, names and descriptions up to the full 32 bytes): the descriptor laspy writes is 192 bytes and is read back as the same dimension (name, type, element count of an opaque array for every value of the options byte, scales, offsets, description), hence the extra-bytes VLR payload describes exactly the current dimensions in order (C13_payload); record length = standard part + sum of dimension sizes under the shape invariant; adding dimensions keeps every existing value and appends zero values, removing dimensions erases the same positions from the descriptors and from every record and keeps the invariant; removing a standard or unknown name is refused without a new state. The model (addDims/removeDims, descriptor, parseDescriptor) is compared with real add_extra_dim(s)/remove_extra_dim(s)/assignment/round-trip histories on every point format: full record bytes and the VLR payload after each history.",
         note="Trusted: generated ctypes layout / type table / option masks; names and descriptions NUL-free ASCII; value copying inside laspy goes through numpy field assignment (checked by the oracle: every other dimension byte-equal after each step). Scaled 64-bit dimensions under add/remove rely on the C12 fix (D12).",
         design="6 (C13)"),
+    "C17": dict(
+        engine="streams",
+        technique="Lean 4 proof over a model of the stream method calls issued by open/read (induction over read operations: a non-seekable source never sees seek/tell), corollary of the session structure theorem (EVLRs right after the points = EVLRs at the header's pointer), frame lemma for memory-map edits; pairwise comparison of what real readers return through every access path",
+        text="Theorems: for every file description, every closefd / read_evlrs choice and every sequence of read_points / read() operations, a stream that reports seekable() == False has no seek or tell in its call log, from open through deferred EVLR loading to close (C17_no_seek); for every file a writer session produces, the bytes right after the last point are the bytes at start_of_first_evlr, so the sequential EVLR path of non-seekable sources reads the same records as the seeking path (C17_evlrs_sequential, from C03_file); overwriting a field image at position p of the mapped bytes changes nothing outside [p, p+w) and leaves the length (C17_mmap_frame; with C09/C02 this is 'only the bytes of the assigned dimension'). Correspondence/oracle: the same file read through path, bytes, BytesIO, buffered file, read-only-interface double, no-readinto double, logged stream (read_evlrs True/False, whole/chunked) and laspy.mmap must give identical header/VLRs/EVLRs/records; the doubles' call logs equal the model's; mmap edits are diffed at byte level and re-read.",
+        note="Trusted: the doubles implement the io protocol the way laspy uses it (an object without seekable() is outside Python's io protocol); mmap/OS page cache semantics; content equality of what is read is established on the implementation by pairwise comparison (the byte-level reading model is C01/C05), the Lean model here covers calls and positions.",
+        design="6 (C17)"),
+    "C18": dict(
+        engine="streams",
+        technique="Lean 4 proof by case analysis and induction over read operations on the model of open_las / LasReader / LasWriter / LasAppender / LasData.write control flow (closed flag, position, calls); exhaustive scenario matrix on the real code with stream doubles",
+        text="Theorems: for every file description (valid, bad signature, truncated, incoherent, unwritable version, with/without points and EVLRs), every closefd, every read_evlrs and every sequence of reads before leaving, the stream is closed at the end iff closefd - also when opening fails (C18_read); after a successful open for reading the stream is at offset-to-point-data whether or not EVLRs were loaded (C18_position); a writer session (compatible header or not, body raising or not) and an append session (non-seekable destination, invalid content, unwritable header, body raising) close iff closefd (C18_write, C18_append); LasData.write never closes (C18_lasdata_write). The complete finite matrix of scenarios runs on the real code in both tiers and the model's closed flag / open outcome / open position are compared.",
+        note="Trusted: the FileInfo abstraction of file contents (outcome classes) - the byte-level conditions behind each class are those of decodeHdr (C07); exceptions raised by user code inside the with-body are modelled as a flag.",
+        design="6 (C18)"),
 }
 NOT_YET = "check not built yet in this round (planned per DESIGN.md section 10); not claimed until its theorems build and its check is quiet"
 
@@ -131,6 +143,7 @@ manifest = {
         {"name": "codec", "path": "harness/props/", "serves_properties": ["C07", "C08", "C02"], "kind_free_text": "Lean byte-level codecs (little-endian ints, fixed-width strings, dates, VLR framing, header) with round-trip theorems + byte-exact correspondence with the real serialisers"},
         {"name": "fileio", "path": "harness/fileio.py", "serves_properties": ["C01", "C03", "C04", "C05", "C06", "C19"], "kind_free_text": "Lean writer/reader/appender session model (Model/FileIO.lean) with the session structure theorem; real LasWriter/LasReader/LasAppender sessions compared byte for byte through the driver"},
         {"name": "lasdata", "path": "harness/props/", "serves_properties": ["C11", "C12", "C13"], "kind_free_text": "Lean models of LasData-level operations (scaling in exact rationals, conversion, extra dimensions) compared with real LasData histories"},
+        {"name": "streams", "path": "harness/streams.py", "serves_properties": ["C17", "C18"], "kind_free_text": "Lean model of stream calls/ownership (Model/Streams.lean); logging stream doubles with configurable capabilities drive the real open/read/write/append code"},
         {"name": "bits", "path": "harness/props/", "serves_properties": ["C20", "C09", "C10"], "kind_free_text": "Lean theorems over generated tables/functions + exhaustive translation validation and correspondence through lean/Driver.lean"},
     ],
     "checks": checks,
